@@ -369,6 +369,15 @@ def rule_e(ctx):
             ok and n > 0, detail or 'response_future.add_done_callback(responder.<send callback>) on all %d paths' % n)
 
 
+def rule_f(ctx):
+    """Received frames reach the code the other rules analyse: dispatch table rows, lookup, routing."""
+    from . import dispatch
+    dispatch.rule_rows(ctx, 'C01.e', ['RequestResponseFrame', 'RequestStreamFrame', 'RequestChannelFrame',
+                                      'RequestFireAndForgetFrame', 'MetadataPushFrame', 'ErrorFrame'])
+    dispatch.rule_lookup(ctx, 'C01.e')
+    dispatch.rule_routing(ctx, 'C01.e')
+
+
 def rule_d(ctx):
     from .c05 import rule_a as c05a
     from .c03 import rule_c as c03c, rule_f as c03f
@@ -377,4 +386,4 @@ def rule_d(ctx):
     c03f(ctx)
 
 
-RULES = [('C01.a', rule_a), ('C01.b', rule_b), ('C01.c', rule_c), ('C01.d', rule_e), ('C05.a+C03.c+C03.f', rule_d)]
+RULES = [('C01.a', rule_a), ('C01.b', rule_b), ('C01.c', rule_c), ('C01.d', rule_e), ('C01.e', rule_f), ('C05.a+C03.c+C03.f', rule_d)]
